@@ -136,9 +136,9 @@ theorem lsz_step {c : Ctx} {n : Nat} {ab ab' : AB} {src : Nat} (hsrc : src < c.r
   simp only [A] at hδ
   omega
 
-theorem moveLeftLoop_spec {c : Ctx} (hg : Good c) (n : Nat) :
-    ∀ (skew : Nat) (pq : List Sample) (ab : AB), Inv c n ab → PQR' c ab pq →
-      Spec (moveLeftLoop c (seqlenOf c) n skew pq ab) (fun ab' => Inv c n ab' ∧
+theorem moveLeftLoop_spec {c : Ctx} (hg : Good c) (r : Routine) (n : Nat) :
+    ∀ (skew : Nat) (pq : List Sample) (ab : AB), Inv c r n ab → PQR' c ab pq →
+      Spec (moveLeftLoop c (seqlenOf c) n skew pq ab) (fun ab' => Inv c r n ab' ∧
         ∃ k : Nat, k ≤ skew ∧ Lsz c n ab' = Lsz c n ab + k ∧
           (k = skew ∨ ∀ j, j < c.runs.size → lenAt c j ≤ B ab' j))
   | 0, pq, ab, hinv, _ => by
@@ -180,13 +180,13 @@ theorem moveLeftLoop_spec {c : Ctx} (hg : Good c) (n : Nat) :
       have hsa1 : ab1.a.size = c.runs.size := by subst hab1; simp [size_aset, hinv.sa]
       have hsb1 : ab1.b.size = c.runs.size := by subst hab1; simp [size_aset, hinv.sb]
       have hmin' : ∀ j, j < c.runs.size → j ≠ src → B ab j < lenAt c j →
-          Before c.lt (valAt c src (B ab src)) src (valAt c j (B ab j)) j := by
+          LeR c.lt r (valAt c src (B ab src)) src (valAt c j (B ab j)) j := by
         intro j hj hjs hbj
         have hjm : (valAt c j (B ab j), j) ∈ pq := (hpq.2 _ _).mpr ⟨hj, hbj, rfl⟩
         have := hmin _ hjm (by simpa using hjs)
         rw [hv] at this
-        exact (lcomp_iff_before' _ _ _ _ _).mp this
-      have hinv1 : Inv c n ab1 := moveLeft_inv hg hinv hsrc hbs hmin' hsa1 hsb1 hA hB
+        exact LeR.of_before hg.hlt r ((lcomp_iff_before' _ _ _ _ _).mp this)
+      have hinv1 : Inv c r n ab1 := moveLeft_inv hg hinv hsrc hbs hmin' hsa1 hsb1 hA hB
       have hL1 : Lsz c n ab1 = Lsz c n ab + 1 := by
         refine lsz_step hsrc (fun i hi hne => by rw [hA i hi, if_neg hne]) 1 ?_
         rw [hA src hsrc, if_pos rfl]
@@ -195,11 +195,11 @@ theorem moveLeftLoop_spec {c : Ctx} (hg : Good c) (n : Nat) :
       have hrm := nodup_removeSeq (s := src) hpq.1
       -- continuation with the new queue
       have hcont : ∀ pq', PQR' c ab1 pq' →
-          Spec (moveLeftLoop c (seqlenOf c) n skew pq' ab1) (fun ab' => Inv c n ab' ∧
+          Spec (moveLeftLoop c (seqlenOf c) n skew pq' ab1) (fun ab' => Inv c r n ab' ∧
             ∃ k : Nat, k ≤ skew + 1 ∧ Lsz c n ab' = Lsz c n ab + k ∧
               (k = skew + 1 ∨ ∀ j, j < c.runs.size → lenAt c j ≤ B ab' j)) := by
         intro pq' hpq'
-        refine Spec.mono (moveLeftLoop_spec hg n skew pq' ab1 hinv1 hpq') ?_
+        refine Spec.mono (moveLeftLoop_spec hg r n skew pq' ab1 hinv1 hpq') ?_
         intro ab' ⟨hi', k, hk, hl, hor⟩
         refine ⟨hi', k + 1, by omega, by rw [hl, hL1]; push_cast; omega, ?_⟩
         rcases hor with h | h
@@ -260,9 +260,9 @@ theorem tdiv_sub_of_dvd {d x : Int} (hd : 0 < d) (h : d ∣ x) (y : Int) (hy : y
   rw [this, Int.mul_tdiv_cancel_left _ (by omega), Int.mul_tdiv_cancel_left _ (by omega)]
   omega
 
-theorem moveRightLoop_spec {c : Ctx} (hg : Good c) (n : Nat) :
-    ∀ (skew : Nat) (pq : List Sample) (ab : AB), Inv c n ab → PQL' c ab pq → (skew : Int) ≤ Lsz c n ab →
-      Spec (moveRightLoop c n skew pq ab) (fun ab' => Inv c n ab' ∧ Lsz c n ab' = Lsz c n ab - skew)
+theorem moveRightLoop_spec {c : Ctx} (hg : Good c) (r : Routine) (n : Nat) :
+    ∀ (skew : Nat) (pq : List Sample) (ab : AB), Inv c r n ab → PQL' c ab pq → (skew : Int) ≤ Lsz c n ab →
+      Spec (moveRightLoop c n skew pq ab) (fun ab' => Inv c r n ab' ∧ Lsz c n ab' = Lsz c n ab - skew)
   | 0, pq, ab, hinv, _, _ => by
     rw [moveRightLoop]
     exact Spec.pure ⟨hinv, by simp⟩
@@ -301,13 +301,13 @@ theorem moveRightLoop_spec {c : Ctx} (hg : Good c) (n : Nat) :
       have hsa1 : ab1.a.size = c.runs.size := by subst hab1; simp [size_aset, hinv.sa]
       have hsb1 : ab1.b.size = c.runs.size := by subst hab1; simp [size_aset, hinv.sb]
       have hmax' : ∀ i, i < c.runs.size → i ≠ src → 0 < A ab i →
-          Before c.lt (valAt c i (A ab i - 1)) i (valAt c src (A ab src - 1)) src := by
+          LeR c.lt r (valAt c i (A ab i - 1)) i (valAt c src (A ab src - 1)) src := by
         intro i hi his hai
         have him : (valAt c i (A ab i - 1), i) ∈ pq := (hpq.2 _ _).mpr ⟨hi, hai, rfl⟩
         have := hmax _ him (by simpa using his)
         rw [hv] at this
-        exact (lcomp_iff_before' _ _ _ _ _).mp this
-      have hinv1 : Inv c n ab1 := moveRight_inv hg hinv hsrc has hmax' hsa1 hsb1 hA hB
+        exact LeR.of_before hg.hlt r ((lcomp_iff_before' _ _ _ _ _).mp this)
+      have hinv1 : Inv c r n ab1 := moveRight_inv hg hinv hsrc has hmax' hsa1 hsb1 hA hB
       have hL1 : Lsz c n ab1 = Lsz c n ab + -1 := by
         refine lsz_step hsrc (fun i hi hne => by rw [hA i hi, if_neg hne]) (-1) ?_
         rw [hA src hsrc, if_pos rfl]
@@ -315,9 +315,9 @@ theorem moveRightLoop_spec {c : Ctx} (hg : Good c) (n : Nat) :
       rw [aget_aset_eq _ (by rw [hinv.sa]; exact hsrc)]
       have hrm := nodup_removeSeq (s := src) hpq.1
       have hcont : ∀ pq', PQL' c ab1 pq' →
-          Spec (moveRightLoop c n skew pq' ab1) (fun ab' => Inv c n ab' ∧ Lsz c n ab' = Lsz c n ab - ((skew + 1 : Nat) : Int)) := by
+          Spec (moveRightLoop c n skew pq' ab1) (fun ab' => Inv c r n ab' ∧ Lsz c n ab' = Lsz c n ab - ((skew + 1 : Nat) : Int)) := by
         intro pq' hpq'
-        refine Spec.mono (moveRightLoop_spec hg n skew pq' ab1 hinv1 hpq' (by rw [hL1]; push_cast at hle; omega)) ?_
+        refine Spec.mono (moveRightLoop_spec hg r n skew pq' ab1 hinv1 hpq' (by rw [hL1]; push_cast at hle; omega)) ?_
         intro ab' ⟨hi', hl⟩
         exact ⟨hi', by rw [hl, hL1]; push_cast; omega⟩
       by_cases hnew : aget ab.a src - (↑n + 1) > 0
